@@ -595,4 +595,88 @@ theorem buildS_eq_build (p : List Nat) : buildS p = some (build p) := by
   rw [foldlS_eq p.reverse [] ([], [none]) inv_init]
   rfl
 
+/-! ### the search with the text indexed as in the Rust code -/
+
+theorem scanS_none (T : Table) (t : List Nat) (window m : Nat) :
+    ∀ (fuel j : Nat), scanS T t window m fuel j none = some (none, j) := by
+  intro fuel j
+  cases fuel with
+  | zero => simp [scanS]
+  | succ fuel => simp [scanS]
+
+theorem scanS_eq (T : Table) (t : List Nat) (window m : Nat) (hw : m ≤ window) (hn : window ≤ t.length) :
+    ∀ (fuel r q : Nat), r ≤ m → m + 1 ≤ r + fuel →
+      scanS T t window m fuel (r + 1) (some q) =
+        some ((scanBack T ((((t.take window).reverse).take m).drop r) q r).1,
+              (scanBack T ((((t.take window).reverse).take m).drop r) q r).2 + 1) := by
+  intro fuel
+  induction fuel with
+  | zero => intro r q hr hf; omega
+  | succ fuel ih =>
+    intro r q hr hf
+    have hbl := back_length t window m hw hn
+    by_cases hrm : r < m
+    · have hlt : r < (((t.take window).reverse).take m).length := by rw [hbl]; exact hrm
+      have hidx : window - (r + 1) < t.length := by omega
+      have hc : t[window - (r + 1)]? = some t[window - (r + 1)] := List.getElem?_eq_getElem hidx
+      have hb : (((t.take window).reverse).take m)[r] = t[window - (r + 1)] := by
+        have h1 := back_getElem? t window m r hw hn hrm
+        rw [List.getElem?_eq_getElem hlt] at h1
+        have e : window - 1 - r = window - (r + 1) := by omega
+        rw [e, hc] at h1
+        simpa using h1
+      rw [List.drop_eq_getElem_cons hlt, hb]
+      have h1 : r + 1 ≤ m := hrm
+      have h2 : ¬ window < r + 1 := by omega
+      simp only [scanS, h1, if_true, h2, if_false, hc, scanBack]
+      cases hd : delta T q t[window - (r + 1)] with
+      | none => simp [scanS_none]
+      | some q' => exact ih (r + 1) q' hrm (by omega)
+    · have : r = m := by omega
+      subst this
+      have h1 : ¬ r + 1 ≤ r := by omega
+      rw [List.drop_of_length_le (by omega)]
+      simp [scanS, h1, scanBack]
+
+theorem scanBack_le (T : Table) : ∀ (back : List Nat) (q r : Nat), (scanBack T back q r).2 ≤ r + back.length := by
+  intro back q r
+  rcases scanBack_spec T back q r with ⟨q', h, _⟩ | ⟨l, hl, h, _⟩
+  · rw [h]; exact Nat.le_refl _
+  · rw [h]; simp only; omega
+
+theorem searchS_eq (T : Table) (m : Nat) (t : List Nat) :
+    ∀ (fuel window : Nat), m ≤ window → t.length + 1 ≤ window + fuel →
+      searchS T m t fuel window = some (search T m t fuel window) := by
+  intro fuel
+  induction fuel with
+  | zero =>
+    intro window hw hf
+    have : ¬ window ≤ t.length := by omega
+    simp [searchS, search, this]
+  | succ fuel ih =>
+    intro window hw hf
+    by_cases hn : window ≤ t.length
+    · have hs := scanS_eq T t window m hw hn (m + 1) 0 0 (by omega) (by omega)
+      simp only [List.drop_zero, Nat.zero_add] at hs
+      have hle := scanBack_le T (((t.take window).reverse).take m) 0 0
+      rw [back_length t window m hw hn] at hle
+      simp only [searchS, search, hn, if_true, hs]
+      generalize scanBack T (((t.take window).reverse).take m) 0 0 = sb at hle ⊢
+      obtain ⟨q, r⟩ := sb
+      simp only at hle ⊢
+      have h1 : ¬ (window < m ∨ m + 2 < r + 1) := by omega
+      have e : m + 2 - (r + 1) = m + 1 - r := by omega
+      simp only [h1, if_false, e]
+      rw [ih (window + (m + 1 - r)) (by omega) (by omega)]
+    · simp [searchS, search, hn]
+
+/-- the index-literal model takes no panicking branch and computes the same list -/
+theorem findAllS_eq_findAll (p t : List Nat) : findAllS p t = some (findAll p t) := by
+  unfold findAllS findAll
+  rw [buildS_eq_build]
+  exact searchS_eq (build p) p.length t (t.length + 1) p.length (Nat.le_refl _) (by omega)
+
+theorem findAllS_eq_occurrences (p t : List Nat) (hp : 0 < p.length) : findAllS p t = some (occurrences p t) := by
+  rw [findAllS_eq_findAll, findAll_eq_occurrences p t hp]
+
 end RbV.Bom
